@@ -63,7 +63,7 @@ ENGINES.append(
      'kind_free_text': 'seeded interleaving of 1-3 logical clients over shared and private library objects (real pgradd end to end), transient file faults on loads through a pass-through open() seam, fresh-process oracle by fork of a pristine zygote (two-level: per library lineage), state-digest invariants after every step'})
 
 check('C15', 'history sim',
-      'Seeded search over operation histories (load / make a library with the public constructor / decompose / estimate from any earlier decomposition, also from a plain copy of the mapping / evaluate with and without the elemental reference, repeated later / group evaluation / Mapping API / merge / re-load / change of the data-directory override / failing operations / loads under injected faults on any file of the include closure), plus fixed observe-merge-observe histories for library pairs; each history runs in its own fresh forked process, interleaved over 1-3 clients that share or own library objects. Every observation is compared with the same minimal chain computed first in a fresh process, and after every step every live library, every descriptor mapping held by a client and the process-wide registries are digested and must be unchanged. Sampling over histories: a clean batch is evidence, not proof.',
+      'Seeded search over operation histories (load / make a library with the public constructor / register a second property-set type / decompose (also other atom orders of the same compound) / estimate from any earlier decomposition, also from a plain copy of the mapping / evaluate with and without the elemental reference, repeated later / group evaluation / Mapping API / merge / re-load / change of the data-directory override / failing operations / loads under injected faults on any file of the include closure), plus fixed histories (observe-merge-observe for library pairs, constructor-made siblings, registration between loads, boundary molecules); each history runs in its own fresh forked process, interleaved over 1-3 clients that share or own library objects. Every observation is compared with the same minimal chain computed first in a fresh process, and after every step every live library, every descriptor mapping held by a client and the process-wide registries are digested and must be unchanged. Sampling over histories: a clean batch is evidence, not proof.',
       'One open known finding (S_elements of an estimate made from a plain dict copy of the descriptors, see known_findings.json) is printed as KNOWN-FINDING and its two example histories are replayed on every run. Trusts fork() of a just-imported interpreter as "fresh process" (a sample of reference values is recomputed in genuinely new interpreters under another hash seed on every run); operations are atomic scheduler steps (no pre-emption inside an operation); histories <= 40 operations, <= 3 live libraries, <= 2 merges per object.',
       'deterministic simulation: seeded scheduler over client histories + fault injection on loads, checked against fresh-process references and state-digest invariants',
       'DESIGN.md 3.4')
@@ -99,7 +99,7 @@ ENGINES.append(
      'kind_free_text': 'real loaders on the real shipped YAML held in an in-memory file system (bundled location and/or relocated copies), simulated environment variable, one forked process per process lifetime (restart), copy faults (file lost / EACCES / EIO on open / EIO on read); the self-consistency sweep runs as the invariant after loading; a real-file-system tier in new interpreters cross-checks the stubs'})
 
 check('C14', 'locate/restart sim',
-      'Fault enumeration and seeded histories over the ways of locating a shipped library: the fixed matrix 9 libraries x {by name, by explicit path, relocated copy selected through the override with the bundled directory absent} is exhaustive, each in its own process lifetime, with identical content digests demanded; seeded scenarios interleave loads by name / absolute path / relative path (with chdir), changes of the override (also to a directory that does not exist, and back) and restarts; fixed scenarios cover recover-after-wrong-override and relative-path sequences; content digests are also compared across hash-seed cells; copy faults make one file of the relocated tree lost or unreadable (every file in the thorough tier) - the load must then fail or, if the file is outside the include closure, succeed with identical contents, and succeed identically after the fault is cleared and the process restarted. The self-consistency clause (every group finite plain numbers over its range, patterns re-readable, remaps well-formed and chain-free, uncertainty block square/symmetric/PSD/sized, basis descriptors with data) is an exhaustive sweep over the shipped data after loading. A real-file-system tier (scratch copy, new interpreters, real pgradd_DATA_DIR) cross-checks the in-memory stubs.',
+      'Fault enumeration and seeded histories over the ways of locating a shipped library: the fixed matrix 9 libraries x {by name, by explicit path, relocated copy selected through the override with the bundled directory absent} is exhaustive, each in its own process lifetime, with identical content digests demanded; seeded scenarios interleave loads by name / absolute path / relative path (with chdir), changes of the override (also to a directory that does not exist, and back) and restarts; fixed scenarios cover recover-after-wrong-override, relative-path sequences, one more registered property-set type, and the package installed at other (simulated) locations; content digests are also compared across hash-seed cells; copy faults make one file of the relocated tree lost or unreadable (every file in the thorough tier) - the load must then fail or, if the file is outside the include closure, succeed with identical contents, and succeed identically after the fault is cleared and the process restarted. The self-consistency clause (every group finite plain numbers over its range, patterns re-readable, remaps well-formed and chain-free, uncertainty block square/symmetric/PSD/sized, basis descriptors with data) is an exhaustive sweep over the shipped data after loading. A real-file-system tier (scratch copy, new interpreters, real pgradd_DATA_DIR) cross-checks the in-memory stubs.',
       'Trusts the SimFS os/open shim (cross-checked against the real file system on every run); restart = fork of a process that never resolved the data directory; a change of the override after the first resolution may or may not be honoured (not stated by the property).',
       'deterministic simulation: in-memory file system + simulated environment + process restart by fork, copy-fault enumeration, exhaustive sweep of shipped data as invariant',
       'DESIGN.md 3.3')
